@@ -1,7 +1,7 @@
 (* Heap lemmas, linked paths, the representation relation between heaps and abstract states. *)
 From Coq Require Import ZArith List Bool Arith Lia Permutation.
 Import ListNotations.
-From Mds Require Import Gen.RingIdx Ring.RingModel Ring.RingSpec.
+From Mds Require Import Gen.RingIdx Ring.RingBase Ring.RingPlain Ring.RingSpec.
 
 Section Base.
 Variable T : Type.
